@@ -1,19 +1,21 @@
 """C20 - impossible set-ups are refused before the simulation starts."""
+from contracts import config as CF
 from contracts import model as M
 from contracts import roms_forcing as F
 from contracts import release_init as RI
 from contracts import roms_init as I
 from contracts import timekeeper as K
 
-UNITS = [K.TKInit(True), K.TKInit(False)] + list(K.TK_MISSING) + [I.GridInit(True), I.GridInit(False)] + list(I.SCAN_UNITS) + [F.ForcingStepsCoverage(), F.ForcingInit(), M.ModelInit(False), M.ModelInit(True)] + [u for u in RI.RELEASE_INIT_UNITS if "no row" in u.unit_name() or "clean_position" in u.unit_name() or "read_release_file" in u.unit_name()] + [u for u in M.LOADER_UNITS if u.unit_name().startswith("model.load_module")]
+UNITS = [K.TKInit(True), K.TKInit(False)] + list(K.TK_MISSING) + [I.GridInit(True), I.GridInit(False)] + list(I.SCAN_UNITS) + list(I.SCAN_READ_UNITS) + [F.ForcingStepsCoverage(), F.ForcingInit(), M.ModelInit(False), M.ModelInit(True)] + [u for u in RI.RELEASE_INIT_UNITS if "no row" in u.unit_name() or "clean_position" in u.unit_name() or "read_release_file" in u.unit_name()] + [u for u in M.LOADER_UNITS if u.unit_name().startswith("model.load_module")] + [u for u in CF.v2_units() if u.missing] + list(CF.CONFIGURE_UNITS)
 LEMMAS = []
 NATIVE = [dict(name="every single fault injected into 8 base scenarios (real configure + Model)", harness="refusals_bounded", kind="bounded", timeout=3000)]
 LEVEL = "other"
 LEVEL_TEXT = ("Exceptional postconditions proved: TimeKeeper.__init__ raises SystemExit exactly when the stop is on the wrong side of start for the chosen direction and always when start, "
               "stop or dt is missing; Grid.__init__ raises SystemExit exactly for an illegal subgrid (after negative-index normalisation); the ordering check of scan_file_times raises "
               "exactly when the concatenated frame times are not strictly increasing (verified as a slice of the function); Model.__init__ constructs the output module last and "
-              "makes no output event. NOT proved (bounded fault injection): forcing coverage of the window (forcing_steps), the release refusals (pandas pipeline), configuration "
-              "file/section faults, missing files.")
+              "makes no output event. The coverage check of forcing_steps (slice), the release constructor's refusal when no row lies in the window, clean_position's refusal of rows without "
+              "position, read_release_file's SystemExit for unreadable files, load_module's refusal of an unknown module and configure_v2's KeyError for each missing mandatory section "
+              "are proved as well. NOT proved (bounded fault injection): that scan_file_times reads every file, the real pandas/netCDF4/yaml behaviour, missing files.")
 LEVEL_NOTE = "decisive refusal clauses for forcing coverage, release and configuration are fault-injected on 8 base scenarios x 22 faults, not proved; the file-reading prefix of scan_file_times is external I/O"
 TECHNIQUE = "contract-based deductive verification of raise conditions (exceptional postconditions) + bounded single-fault injection on the real start-up path"
 EXPLANATION = "Raise conditions of the constructors proved; library-backed refusals only fault-injected, hence level 'other'."
